@@ -196,6 +196,10 @@ def run_job(job):
     ob.extra["paths"] = len(outs)
     for o in outs:
         if o.exc is not None:
+            from ..harness import exc_origin
+            if exc_origin(o.exc) == "harness":
+                ob.fail_harness(f"harness raised: {o.exc!r}")
+                continue
             ob.fail_harness(f"real code raised under symbolic execution: {o.exc!r}")
             continue
         L, new, pol, V, gamma = o.value
@@ -265,6 +269,10 @@ def _run_shipped(job, ob):
             return val_of(new), val_of(pol), val_of(solver.values), val_of(solver.gamma)[()]
     for o in ex.explore(run):
         if o.exc is not None:
+            from ..harness import exc_origin
+            if exc_origin(o.exc) == "harness":
+                ob.fail_harness(f"harness raised: {o.exc!r}")
+                continue
             ob.fail_harness(f"real code raised under symbolic execution: {o.exc!r}")
             continue
         new, pol, V, gamma = o.value
